@@ -7,6 +7,7 @@ import JsonataModel.Model.Strings
 import JsonataModel.Model.Regex
 import JsonataModel.Model.Number
 import JsonataModel.Model.FormatNumber
+import JsonataModel.Model.Date
 
 namespace Jsonata
 open NumSys
@@ -741,6 +742,15 @@ def builtinImpl (r : Rec N) (name : String) (args : List (Option (Val N))) :
   | "number", [some (.str s)] => match libNumberStr s with | .ok v => pure (some v) | .error e => throw e
   | "formatNumber", [some (.num x), some (.str pic), opts] =>
       match libFormatNumber x pic opts with | .ok v => pure (some v) | .error e => throw e
+  | "fromMillis", [some (.num ms), pic, tz] =>
+      match Date.fromMillis (toInt ms) ((optStrL pic).getD []) ((optStrL tz).getD []) with
+      | some out => pure (some (.str (String.ofList out)))
+      | none => libErr "fromMillis"
+  | "toMillis", [some (.str s), pic, _] =>
+      match Date.toMillis s.toList ((optStrL pic).getD []) with
+      | .ok ms => pure (some (.num (ofInt ms)))
+      | .fail => libErr "toMillis"
+      | .outside => throw (.unsupported "toMillis picture outside the modelled layouts")
   | "formatBase", [some (.num x), b] =>
       match libFormatBase x (match b with | some (.num y) => some y | _ => none) with
       | .ok v => pure (some v) | .error e => throw e
